@@ -243,12 +243,12 @@ package scheduler
 //@   loop 1 invariant I1-consumers-non-nil: $I1
 //@   loop 1 invariant I2-deps-non-nil: $I2
 //@   loop 1 invariant I3-consumers-enqueued: $I3
-//@   loop 1 invariant [C01,C07] D1-remaining-counts-open-subscriptions: $D1
-//@   loop 1 invariant [C01,C07] D2-subscriptions-are-to-unfinished-dependencies: $D2
-//@   loop 1 invariant [C01,C07] D3-every-unfinished-dependency-is-subscribed: $D3
-//@   loop 1 invariant [C01,C07] D4-consumer-entries-are-open-subscriptions: $D4
-//@   loop 1 invariant [C01,C07] D5-entries-of-one-consumer-have-distinct-slots: $D5
-//@   loop 1 invariant [C01,C07] D6-every-subscription-has-its-entry: $D6
+//@   loop 1 invariant [C01,C07,C05] D1-remaining-counts-open-subscriptions: $D1
+//@   loop 1 invariant [C01,C07,C05] D2-subscriptions-are-to-unfinished-dependencies: $D2
+//@   loop 1 invariant [C01,C07,C05] D3-every-unfinished-dependency-is-subscribed: $D3
+//@   loop 1 invariant [C01,C07,C05] D4-consumer-entries-are-open-subscriptions: $D4
+//@   loop 1 invariant [C01,C07,C05] D5-entries-of-one-consumer-have-distinct-slots: $D5
+//@   loop 1 invariant [C01,C07,C05] D6-every-subscription-has-its-entry: $D6
 //@   loop 1 invariant [C19,C05] W-waiting-counts-jobs-with-open-subscriptions: $WDEF && waiting == card(W)
 //@   loop 1 invariant [C01,C12] dispatched-and-finished-jobs: $DISP
 //@   loop 1 invariant [C08,C01] F1-failed-dependency-invalidates: $F1
